@@ -684,3 +684,205 @@ Proof. intros AC NK RES CLS. unfold Label_holds, model_label, stamp_label. rewri
 Lemma label_rev_spec G lab lr : label_rev G lab = Some lr -> exists r, In r G /\ r_id r = lr /\ In lab (r_labels r).
 Proof. unfold label_rev. destruct (find (fun r => memN lab (r_labels r)) G) as [r|] eqn:E; [|discriminate].
   inversion 1; subst. apply find_some in E. destruct E as [Hr Hm]. exists r. split; auto. split; auto. apply memN_In; auto. Qed.
+
+
+(* ================================================================== K. several targets that each share lineage with rows *)
+(* _stamp_revs gives every StampStep ALL filtered heads as from_.  The first such step folds all of them into its
+   destination; for a LATER destination the from_ rows are gone, `set(self.from_).difference(heads)` is non-empty and
+   should_create_branch turns the step into an INSERT — which is right exactly when that destination lies above its rows
+   (is_upgrade) and is not itself a row.  So the code is right when no target that shares lineage with a row is a row, and
+   every such target except the first (in destination order) has no row above it. *)
+Lemma stamp_dest_down G (W:gwf G) (WF:wf_refs G) F t : stamp_dest G F t = Ok [StampStep F [t] false false] ->
+  exists h, In h F /\ path (all_down G) h t.
+Proof. unfold stamp_dest. destruct (memN t F); [discriminate|].
+  destruct (desc_spec G WF [t]) as [D [ED SD]]. destruct (anc_spec G W [t]) as [A [EA SA]]. rewrite ED, EA.
+  destruct (negb (is_nil (interN D F))) eqn:E1; destruct (negb (is_nil (interN A F))) eqn:E2; try discriminate.
+  intros _. apply inter_nonempty in E1. destruct E1 as [h [H1 H2]]. exists h. split; auto.
+  apply SD in H1. destruct H1 as [t' [[<-|[]] P]]. auto. Qed.
+
+Lemma exec_move_gone G ord F t s : sync s -> (exists x, In x F /\ ~ In x (heads s)) -> ~ In t (heads s) ->
+  eff (update_to_step G ord (StampStep F [t] true false) s) (fun x => x = t \/ In x (heads s)).
+Proof. intros Sy HX Ht. cbn [update_to_step]. unfold stamp_step. cbn [negb andb orb].
+  assert (E1 : subsetN F (heads s) = false) by (apply subsetN_false; auto).
+  assert (E2 : subsetN [t] (heads s) = false) by (apply subsetN_false; exists t; split; [left|]; auto).
+  rewrite E1, E2. cbn [negb andb]. apply eff_insert; auto. Qed.
+
+Section Multi2.
+  Variable G : graph.
+  Hypothesis W : gwf G.
+  Hypothesis WF : wf_refs G.
+  Let ord := fun l : list N => l.
+  Variable H0 R F : list N.
+  Hypothesis NDH : NoDup H0.
+  Hypothesis ACH : antichain G H0.
+  Hypothesis NDF : NoDup F.
+  Hypothesis HF : forall h, In h F <-> In h H0 /\ exists t, In t R /\ lin G t h.
+  Definition up_of (t:N) : Prop := forall h, In h H0 -> ~ path (all_down G) h t.
+  Definition later_up (ds:list N) : Prop :=
+    forall pre t post, ds = pre ++ t :: post -> rel G H0 t -> forall t', In t' post -> rel G H0 t' -> up_of t'.
+  (* no target that shares lineage with a row is a row *)
+  Hypothesis NR : forall t, In t R -> rel G H0 t -> ~ In t H0.
+
+  Lemma F_H0' h : In h F -> In h H0. Proof. intros Hh. apply HF in Hh. tauto. Qed.
+  Lemma dest_AC' t : ~ In t F -> forall h1 h2, In h1 F -> In h2 F -> path (all_down G) h1 t -> path (all_down G) t h2 -> False.
+  Proof. intros HtF h1 h2 H1 H2 P1 P2. destruct (N.eq_dec h1 h2) as [->|Hne].
+    - apply HtF. assert (t = h2) by (apply (gwf_antisym G); auto). subst. auto.
+    - apply (ACH h1 h2); auto using F_H0'. eapply path_trans; eauto. Qed.
+
+  Lemma run_dests2 : forall ds s, sync s -> NoDup ds -> incl ds R ->
+    (forall t, In t ds -> ~ In t (heads s)) ->
+    (incl F (heads s) \/ (F <> [] /\ (forall x, In x F -> ~ In x (heads s)) /\ forall t, In t ds -> rel G H0 t -> up_of t)) ->
+    later_up ds ->
+    exists steps os s', stamp_dests G F ds = Ok steps /\ run_steps G ord steps s = (os, Some s') /\
+      length os = length steps /\ Forall obs_fine os /\ sync s' /\ final_rows os (rows s) = rows s' /\
+      forall x, In x (heads s') <-> In x ds \/ (In x (heads s) /\ ~ (In x F /\ mv G F ds)).
+  Proof. induction ds as [|t ds IH]; intros s Sy ND Hin I1 ST LU.
+    - exists [], [], s. cbn [stamp_dests run_steps length final_rows]. split; auto. split; auto. split; auto. split; [constructor|]. split; auto. split; auto.
+      intros x. cbn [In]. split; [intros Hx; right; split; auto; intros [_ [t [[] _]]]|intros [[]|[Hx _]]; auto].
+    - inversion ND as [|? ? Htds NDds]; subst.
+      assert (HtR : In t R) by (apply Hin; left; auto).
+      assert (Hin' : incl ds R) by (intros x Hx; apply Hin; right; auto).
+      assert (Hth : ~ In t (heads s)) by (apply I1; left; auto).
+      assert (HtF : ~ In t F).
+      { intros HtF. pose proof (F_H0' t HtF) as HtH. apply (NR t HtR); auto. exists t. split; auto. left; constructor. }
+      assert (LU' : later_up ds).
+      { intros pre t0 post E. apply (LU (t :: pre) t0 post). rewrite E. reflexivity. }
+      destruct (stamp_dest_spec G W WF F t) as [st [Es CASES]]. { intros _. apply dest_AC'; auto. }
+      cbn [stamp_dests]. rewrite Es. cbn [bind].
+      destruct CASES as [[HtF' _]|[[_ [[h [HhF Lh]] [up Est]]]|[_ [NoF ->]]]]; [tauto| |].
+      + (* t shares lineage with rows *)
+        subst st.
+        assert (Rt : rel G H0 t) by (exists h; split; auto; apply F_H0'; auto).
+        assert (UPS' : forall t', In t' ds -> rel G H0 t' -> up_of t') by (intros t' Ht'; apply (LU [] t ds eq_refl Rt t' Ht')).
+        assert (FNE : F <> []) by (intros E; apply (in_nil (a:=h)); rewrite <- E; exact HhF).
+        assert (MV : mv G F (t :: ds)) by (exists t; split; [left; auto|split; auto; exists h; auto]).
+        destruct ST as [INT|[_ [GONE UPS]]].
+        * (* the rows are still there: they are all folded into t *)
+          destruct (exec_move G ord F t up s Sy NDF FNE INT Hth) as [s1 [stm [E [Sy1 [Fo H1]]]]].
+          destruct (IH s1 Sy1 NDds Hin') as [steps [os [s' [E1 [E2 [L [Fi [Sy' [Fr HS]]]]]]]]]; auto.
+          { intros t' Ht' Hh'. apply H1 in Hh'. destruct Hh' as [->|[Hh' _]]; [tauto|]. apply (I1 t'); [right|]; auto. }
+          { right. split; auto. split; auto. intros x Hx Hh'. apply H1 in Hh'. destruct Hh' as [->|[_ Hn]]; auto. }
+          exists (StampStep F [t] up false :: steps), (ObsOk (rows s1) stm :: os), s'. rewrite E1. cbn [bind app run_steps].
+          rewrite E, E2. cbn [length final_rows]. split; auto. split; auto. split; auto. split; [constructor; auto; apply one_row_5; auto|]. split; auto. split; auto.
+          intros x. rewrite HS, H1. cbn [In]. split.
+          -- intros [Hx|[[->|[Hx Hn]] _]]; auto. right. split; auto. intros [HxF _]. exact (Hn HxF).
+          -- intros [[<-|Hx]|[Hx Hn]].
+             ++ right. split; [left; reflexivity|intros [HxF _]; exact (HtF HxF)].
+             ++ left. exact Hx.
+             ++ right. assert (HnF : ~ In x F) by (intros HxF; apply Hn; split; auto). split; [right; split; auto|intros [HxF _]; exact (HnF HxF)].
+        * (* the rows were folded into an earlier destination: this one must be an upgrade and becomes an INSERT *)
+          assert (up = true).
+          { destruct up; auto. exfalso. destruct (stamp_dest_down G W WF F t Es) as [h' [Hh' P]].
+            apply (UPS t (or_introl eq_refl) Rt h'); auto. apply F_H0'; auto. }
+          subst up.
+          assert (HX : exists x, In x F /\ ~ In x (heads s)) by (exists h; split; auto).
+          destruct (exec_move_gone G ord F t s Sy HX Hth) as [s1 [stm [E [Sy1 [Fo H1]]]]].
+          destruct (IH s1 Sy1 NDds Hin') as [steps [os [s' [E1 [E2 [L [Fi [Sy' [Fr HS]]]]]]]]]; auto.
+          { intros t' Ht' Hh'. apply H1 in Hh'. destruct Hh' as [->|Hh']; [tauto|]. apply (I1 t'); [right|]; auto. }
+          { right. split; auto. split; auto. intros x Hx Hh'. apply H1 in Hh'. destruct Hh' as [->|Hh']; auto. apply (GONE x); auto. }
+          exists (StampStep F [t] true false :: steps), (ObsOk (rows s1) stm :: os), s'. rewrite E1. cbn [bind app run_steps].
+          rewrite E, E2. cbn [length final_rows]. split; auto. split; auto. split; auto. split; [constructor; auto; apply one_row_5; auto|]. split; auto. split; auto.
+          intros x. rewrite HS, H1. cbn [In]. split.
+          -- intros [Hx|[[->|Hx] _]]; auto. right. split; auto. intros [HxF _]. apply (GONE x); auto.
+          -- intros [[<-|Hx]|[Hx _]].
+             ++ right. split; [left; reflexivity|intros [HxF _]; exact (HtF HxF)].
+             ++ left. exact Hx.
+             ++ right. split; [right; auto|intros [HxF _]; apply (GONE x); auto].
+      + (* a new branch *)
+        destruct (exec_insert G ord t s Sy Hth) as [s1 [stm [E [Sy1 [Fo H1]]]]].
+        destruct (IH s1 Sy1 NDds Hin') as [steps [os [s' [E1 [E2 [L [Fi [Sy' [Fr HS]]]]]]]]]; auto.
+        { intros t' Ht' Hh'. apply H1 in Hh'. destruct Hh' as [->|Hh']; [tauto|]. apply (I1 t'); [right|]; auto. }
+        { destruct ST as [INT|[FNE [GONE UPS]]].
+          - left. intros x Hx. apply H1. right. auto.
+          - right. split; auto. split.
+            + intros x Hx Hh'. apply H1 in Hh'. destruct Hh' as [->|Hh']; auto. apply (GONE x); auto.
+            + intros t' Ht'. apply UPS. right; auto. }
+        exists (StampStep [] [t] true true :: steps), (ObsOk (rows s1) stm :: os), s'. rewrite E1. cbn [bind app run_steps].
+        rewrite E, E2. cbn [length final_rows]. split; auto. split; auto. split; auto. split; [constructor; auto; apply one_row_5; auto|]. split; auto. split; auto.
+        intros x. rewrite HS, H1. cbn [In].
+        assert (MVE : mv G F (t :: ds) <-> mv G F ds).
+        { split; intros [t' [Ht' [Hn [h [Hh Lh]]]]].
+          - destruct Ht' as [<-|Ht']; [exfalso; apply (NoF h); auto|]. exists t'. split; auto. split; auto. exists h; auto.
+          - exists t'. split; [right; auto|]. split; auto. exists h; auto. }
+        rewrite MVE. split.
+        * intros [Hx|[[->|Hx] Hn]]; auto.
+        * intros [[<-|Hx]|[Hx Hn]]; auto. right. split; auto. intros [HxF _]. auto. Qed.
+
+  Hypothesis NDR : NoDup R.
+  Hypothesis ACR : antichain G R.
+  Hypothesis LUR : later_up R.
+
+  Lemma multi_run2 : exists steps os, stamp_dests G F R = Ok steps /\
+    run_cmd G ord steps H0 = (os, Some (final_rows os H0)) /\ length os = length steps /\ Forall obs_fine os /\
+    NoDup (final_rows os H0) /\ antichain G (final_rows os H0) /\
+    forall x, In x (final_rows os H0) <-> (In x H0 /\ ~ lineage G R x) \/ In x R.
+  Proof. destruct (start_sync H0 NDH) as [Sy0 Hh0].
+    destruct (run_dests2 R (start H0) Sy0 NDR (incl_refl R)) as [steps [os [s' [E1 [E2 [L [Fi [Sy' [Fr HS]]]]]]]]]; auto.
+    { intros t Ht Hh. apply Hh0 in Hh. apply (NR t Ht); auto. exists t. split; auto. left; constructor. }
+    { left. intros x Hx. apply Hh0. apply F_H0'; auto. }
+    exists steps, os. unfold run_cmd. rewrite E2. cbn [option_map]. cbn [start rows] in Fr. rewrite Fr.
+    split; auto. split; auto. split; auto. split; auto.
+    destruct Sy' as [N1 [N2 EQ]].
+    assert (LF : forall x, In x H0 -> (lineage G R x <-> In x F)).
+    { intros x Hx. rewrite HF. unfold lineage. split; [intros LL; split; auto|intros [_ LL]; auto]. }
+    assert (RW : forall x, In x (rows s') <-> (In x H0 /\ ~ In x F) \/ In x R).
+    { intros x. rewrite <- EQ, HS, Hh0. split.
+      - intros [Hx|[Hx Hn]]; auto. destruct (in_dec N.eq_dec x F) as [HxF|HxF]; auto. exfalso.
+        pose proof HxF as HxF'. apply HF in HxF'. destruct HxF' as [_ [t [Ht Lt]]].
+        apply Hn. split; auto. exists t. split; auto. split; [|exists x; auto].
+        intros HtF. apply (NR t Ht); [exists x; auto|apply F_H0'; auto].
+      - intros [[Hx Hn]|Hx]; auto. right. split; auto. tauto. }
+    split; auto. split.
+    - intros x y Hx Hy Hne P. apply RW in Hx, Hy. destruct Hx as [[Hx Fx]|Hx]; destruct Hy as [[Hy Fy]|Hy].
+      + apply (ACH x y); auto.
+      + apply Fx. apply HF. split; auto. exists y. split; auto. right; auto.
+      + apply Fy. apply HF. split; auto. exists x. split; auto. left; auto.
+      + apply (ACR x y); auto.
+    - intros x. rewrite RW. split; (intros [[Hx Hn]|Hx]; auto; left; split; auto); rewrite (LF x Hx) in *; auto. Qed.
+End Multi2.
+
+Definition amo_class (G:graph) (H0 R:list N) : Prop :=
+  forall t1 t2, In t1 R -> In t2 R -> rel G H0 t1 -> rel G H0 t2 -> t1 = t2 \/ (In t1 H0 /\ In t2 H0).
+Definition up_class (G:graph) (H0 R:list N) : Prop :=
+  (forall t, In t R -> rel G H0 t -> ~ In t H0) /\ later_up G H0 R.
+
+Lemma multi_run_any G (W:gwf G) (WF:wf_refs G) H0 R F : NoDup H0 -> antichain G H0 -> NoDup F ->
+  (forall h, In h F <-> In h H0 /\ exists t, In t R /\ lin G t h) -> NoDup R -> antichain G R ->
+  amo_class G H0 R \/ up_class G H0 R ->
+  exists steps os, stamp_dests G F R = Ok steps /\
+    run_cmd G (fun l => l) steps H0 = (os, Some (final_rows os H0)) /\ length os = length steps /\ Forall obs_fine os /\
+    NoDup (final_rows os H0) /\ antichain G (final_rows os H0) /\
+    forall x, In x (final_rows os H0) <-> (In x H0 /\ ~ lineage G R x) \/ In x R.
+Proof. intros NDH ACH NDF HF NDR ACR [C|[C1 C2]].
+  - apply multi_run; auto.
+  - apply multi_run2; auto. Qed.
+
+Theorem multi_target_holds G (purge:bool) t (H:list N) : ~ cyclic (all_down G) -> ndeps_okb G = true ->
+  amo_class G (if purge then [] else H) (targets_of t) \/ up_class G (if purge then [] else H) (targets_of t) ->
+  C05_holds (G, purge, t, H) (model_C05 (G, purge, t, H)).
+Proof. intros AC NK CLS.
+  destruct t as [|o|l]; [apply base_target; auto| |].
+  - destruct o as [|x o']; [apply at_most_one_target; auto|]. intros PRE.
+    destruct (pre_C05_facts _ _ _ _ PRE) as [WF [ND AN]]. destruct (pre_C05_targets _ _ _ _ PRE) as [NDR [ACR PB]].
+    pose proof (gwf_of G WF AC NK) as W. cbn [targets_of] in *. set (R := x :: o') in *. set (H0 := if purge then [] else H) in *.
+    assert (ND0 : NoDup H0) by (unfold H0; destruct purge; [constructor|auto]).
+    assert (AN0 : antichain G H0) by (unfold H0; destruct purge; [intros a b []|auto]).
+    destruct (ffl_spec G W WF R H0) as [l [El [Sl _]]].
+    assert (HF : forall h, In h (dedupe (l ++ [])) <-> In h H0 /\ exists t, In t R /\ lin G t h).
+    { intros h. rewrite dedupe_In, app_nil_r, Sl. split; intros [H1 H2]; split; auto. destruct H2 as [E|H2]; [discriminate|auto]. }
+    destruct (multi_run_any G W WF H0 R (dedupe (l ++ [])) ND0 AN0 (dedupe_NoDup _) HF NDR ACR CLS) as [steps [os [E1 [E2 [L [Fi [N' [A' S']]]]]]]].
+    exists steps, os. unfold model_C05, stamp. fold H0. unfold stamp_revs. cbn [filtered_heads]. rewrite El. fold R. rewrite PB, E1, E2.
+    split; auto. split; auto. split; auto. split; auto.
+  - destruct l as [|x l']. { intros PRE. destruct (pre_C05_targets _ _ _ _ PRE) as [_ [_ K]]. congruence. } intros PRE.
+    destruct (pre_C05_facts _ _ _ _ PRE) as [WF [ND AN]]. destruct (pre_C05_targets _ _ _ _ PRE) as [NDR [ACR _]].
+    pose proof (gwf_of G WF AC NK) as W. cbn [targets_of] in *. set (R := x :: l') in *. set (H0 := if purge then [] else H) in *.
+    assert (ND0 : NoDup H0) by (unfold H0; destruct purge; [constructor|auto]).
+    assert (AN0 : antichain G H0) by (unfold H0; destruct purge; [intros a b []|auto]).
+    destruct (fh_ids G W WF H0 R) as [fh [Ef Sf]].
+    assert (HF : forall h, In h (dedupe fh) <-> In h H0 /\ exists t, In t R /\ lin G t h) by (intros h; rewrite dedupe_In; apply Sf).
+    destruct (multi_run_any G W WF H0 R (dedupe fh) ND0 AN0 (dedupe_NoDup _) HF NDR ACR CLS) as [steps [os [E1 [E2 [L [Fi [N' [A' S']]]]]]]].
+    exists steps, os. unfold model_C05, stamp. fold H0. unfold stamp_revs. rewrite Ef, E1, E2.
+    split; auto. split; auto. split; auto. split; auto. Qed.
+
+(* C05-e's shape: rows {c1,c2}, targets (d1,d2) with d1 above c1 only and d2 above c2 only *)
+Definition Ge : graph := [mkRev 0 [] [] [] []; mkRev 1 [] [] [] []; mkRev 2 [0] [] [] []; mkRev 3 [1] [] [] []]%N.
